@@ -107,7 +107,20 @@ Theorem C26_exclusive_upper_refuted :
     vp C = min_val S W /\ upper_normal S W X C <> upper_expanded S W X C.
 Proof. exact exclusive_upper_refuted. Qed.
 
+(* the comparison context width is irrelevant for well-formed operands (relational: any
+   signedness; ==?: unsigned comparison), so a reading of 11.4.13 that extends every member to
+   one common width gives the same results as the pairwise reading for these *)
+Theorem C26_rel_context_irrelevant :
+  forall W f a b, wf_tv a -> wf_tv b -> ctx_w a b <= W -> rel_at W f a b = sv_rel f a b.
+Proof. exact rel_context_irrelevant. Qed.
+
+Theorem C26_weq_context_irrelevant_unsigned :
+  forall W a b, ctx_s a b = false -> weq_at W a b = sv_weq a b.
+Proof. exact weq_context_irrelevant_unsigned. Qed.
+
 (* Non-vacuity *)
+Example C26_wf_tv_example : wf_tv (mkTv 8 true (mkVec 255 0)) /\ ctx_w (mkTv 8 true (mkVec 255 0)) (mkTv 4 true (mkVec 3 0)) <= 32.
+Proof. repeat split; discriminate. Qed.
 Example C26_lf_crlf_good : nl_good [10] /\ nl_good [13; 10] /\ same_layout (mkOpts 80 4 [10] false) (mkOpts 80 4 [13; 10] true).
 Proof. repeat split; discriminate. Qed.
 Example C26_nl_ok_example : nl_ok (mkOpts 20 2 [13; 10] false) /\ nl_ok (mkOpts 120 8 [10] false).
@@ -145,3 +158,5 @@ Print Assumptions C26_case_arm_expand_equiv.
 Print Assumptions C26_simple_case_item_equiv.
 Print Assumptions C26_exclusive_upper_equiv.
 Print Assumptions C26_exclusive_upper_refuted.
+Print Assumptions C26_rel_context_irrelevant.
+Print Assumptions C26_weq_context_irrelevant_unsigned.
